@@ -62,9 +62,12 @@ Scalars == {"int", "int0", "negint", "float_i", "float_f", "true", "false", "str
             "datetime_tz", "time_tz", "inf", "bigint", "s_int_ws", "s_float_exp", "tuple2e", "tuple3e"}
 Empties == {"none", "empty", "elist", "edict"}
 Lists == {"list_int", "list_str", "list_mixed", "list_s_int", "list_tuple2"}
+\* another Property handed to extend ("one can also pass another Property ... units must match"): two int values,
+\* two string values, two int values with a unit the destination does not have
+PropInputs == {"prop_int", "prop_str", "prop_unit"}
 Classes == Scalars \cup Empties \cup Lists
-AccYes(f) == CASE f = "str"      -> {"str", "text", "list_str"}
-               [] f = "int"      -> {"int", "int0", "negint", "s_int", "list_int", "list_s_int", "bigint", "s_int_ws"}
+AccYes(f) == CASE f = "str"      -> {"str", "text", "list_str", "prop_str"}
+               [] f = "int"      -> {"int", "int0", "negint", "s_int", "list_int", "list_s_int", "bigint", "s_int_ws", "prop_int"}
                [] f = "float"    -> {"float_i", "float_f", "s_float", "inf", "s_float_exp"}
                [] f = "boolean"  -> {"true", "false", "s_bool"}
                [] f = "date"     -> {"date", "s_date"}
@@ -72,10 +75,10 @@ AccYes(f) == CASE f = "str"      -> {"str", "text", "list_str"}
                [] f = "datetime" -> {"datetime", "s_datetime", "datetime_tz"}
                [] f = "tuple"    -> {}
                [] OTHER -> {}
-AccNo(f) == IF f \in {"str", "none"} THEN {} ELSE {"str", "text", "list_str", "list_mixed"}
+AccNo(f) == IF f \in {"str", "none"} THEN {} ELSE {"str", "text", "list_str", "list_mixed", "prop_str"}
 
-ListLen(c) == IF c \in Lists \cup {"bracketed"} THEN 2 ELSE 1
-Infer(c) == CASE c \in {"int", "int0", "negint", "list_int", "list_mixed", "bigint"} -> "int"
+ListLen(c) == IF c \in Lists \cup PropInputs \cup {"bracketed"} THEN 2 ELSE 1
+Infer(c) == CASE c \in {"int", "int0", "negint", "list_int", "list_mixed", "bigint", "prop_int"} -> "int"
               [] c \in {"float_i", "float_f", "inf"} -> "float"
               [] c \in {"true", "false"} -> "boolean"
               [] c = "text" -> "text"
@@ -107,7 +110,8 @@ Post(s, op) ==
          ELSE IF s.n = 0 THEN SetValuesPost(s, op.in)
          ELSE Grow(s, op.in, 1)
     [] op.name = "extend" ->
-         IF s.n = 0 THEN SetValuesPost(s, op.in)
+         IF op.in = "prop_unit" THEN {R("raised", s)}            \* units differ: refused
+         ELSE IF s.n = 0 THEN SetValuesPost(s, op.in)
          ELSE IF op.in \in Empties THEN {R("ok", s), R("ok", Abs(s.d, s.n + 1)), R("raised", s)}
          ELSE Grow(s, op.in, ListLen(op.in))
     [] op.name = "setitem" ->
